@@ -23,7 +23,7 @@ EGrid == IF Thorough THEN SetToSeq(Shapes(3, 2) \cup {<<3>>, <<2, 3>>, <<1, 2, 1
          ELSE <<<<>>, <<3>>, <<2, 2>>, <<1, 2, 1, 2, 2>>>>          \* element-wise operations: index logic is trivial
 
 PowKs == <<QI(-2), QI(-1), Zero, One, Two, QI(3), Half>>
-ScaleKs == <<Two, Q(-1, 2), Zero>>
+ScaleKs == <<Two, Q(-1, 2), Zero, One>>
 Fns == <<"exp", "log", "sin", "cos", "tan", "sinh", "cosh", "tanh">>
 
 UDom(op, k) == CASE op = "log" -> "pos"
